@@ -41,14 +41,14 @@ static void lib_skinny(unsigned bb, const uint8_t *key, unsigned klen, int dec, 
     if (bb == 16) {
         Skinny128Key_t ks; const Skinny128Key_t *use = &ks;
         vh_call_begin("skinny128_set_key"); *ret = skinny128_set_key(&ks, key, klen); vh_call_end();
-        if (lib_relocate) { use = vh_ro_copy(0, &ks, sizeof(ks)); memset(&ks, 0xA5, sizeof(ks)); }
+        if (lib_relocate) { use = vh_ro_copy_al(0, &ks, sizeof(ks), _Alignof(__typeof__(ks))); memset(&ks, 0xA5, sizeof(ks)); }
         vh_call_begin(dec ? "skinny128_ecb_decrypt" : "skinny128_ecb_encrypt");
         if (dec) skinny128_ecb_decrypt(out, in, use); else skinny128_ecb_encrypt(out, in, use);
         vh_call_end();
     } else {
         Skinny64Key_t ks; const Skinny64Key_t *use = &ks;
         vh_call_begin("skinny64_set_key"); *ret = skinny64_set_key(&ks, key, klen); vh_call_end();
-        if (lib_relocate) { use = vh_ro_copy(0, &ks, sizeof(ks)); memset(&ks, 0xA5, sizeof(ks)); }
+        if (lib_relocate) { use = vh_ro_copy_al(0, &ks, sizeof(ks), _Alignof(__typeof__(ks))); memset(&ks, 0xA5, sizeof(ks)); }
         vh_call_begin(dec ? "skinny64_ecb_decrypt" : "skinny64_ecb_encrypt");
         if (dec) skinny64_ecb_decrypt(out, in, use); else skinny64_ecb_encrypt(out, in, use);
         vh_call_end();
@@ -146,7 +146,7 @@ static void c02_case(uint64_t idx)
 {
     unsigned rounds = 5 + (unsigned)(idx % 4), dec = (unsigned)((idx / 4) & 1), entry = (unsigned)((idx / 8) % 4);
     uint64_t k = idx / 32;
-    uint8_t key[16], tweak[8], in[8], out[8], exp_[8], zero[8] = {0};
+    uint8_t key[16], tweak[8], in[8], out[8], exp_[8], zero[8] = {0}, stored[8]; int use_stored = 0;
     const uint8_t *eff_tweak = tweak;
     static const char *const entries[4] = {"set_tweak+crypt", "crypt_tweaked", "fresh-schedule(zero-tweak)", "set_tweak(NULL)"};
     MantisKey_t ks; vh_rng r; int ret, ret2 = 1; char pfx[96]; const char *kind;
@@ -161,6 +161,12 @@ static void c02_case(uint64_t idx)
         in[pos / 2] = (uint8_t)((pos & 1) ? ((in[pos / 2] & 0xF0) | val) : ((in[pos / 2] & 0x0F) | (val << 4))); }
     else if (k < 720) { kind = "special-key"; memset(key, (k & 1) ? 0xFF : 0x00, 16); if (k & 2) key[0] ^= 0x80; if (k & 4) key[7] ^= 0x01; if (k & 8) memset(tweak, 0xFF, 8); }
     else kind = "random";
+    if (entry == 1 && k >= 720 && (k & 2)) {
+        /* the schedule will already store a tweak that is related to the per-call one (halves repeated / swapped / one bit apart,
+           in either direction): the per-call tweak must win whatever the stored one looks like */
+        use_stored = 1;
+        if (k & 4) { vh_rand_bytes(&r, stored, 8); vh_related(&r, tweak, stored, 8); } else vh_related(&r, stored, tweak, 8);
+    }
     if (entry >= 2) eff_tweak = zero;
     if (vh_distinct(vh_hash(key, 16, vh_hash(eff_tweak, 8, vh_hash(in, 8, VH_HASH_INIT + (idx % 32)))))) VH_COUNT("distinct_nontrivial_inputs", 1);
     if (dec) ref_mantis_decrypt(rounds, key, eff_tweak, in, exp_); else ref_mantis_encrypt(rounds, key, eff_tweak, in, exp_);
@@ -170,9 +176,13 @@ static void c02_case(uint64_t idx)
         /* odd k: block processing runs on a relocated PROT_READ copy of the schedule, the original is scrambled */
         const MantisKey_t *use = &ks; int reloc = (int)(k & 1);
         if (entry == 0) { vh_call_begin("mantis_set_tweak"); ret2 = mantis_set_tweak(&ks, tweak, 8); vh_call_end(); }
+        if (use_stored) {
+            vh_call_begin("mantis_set_tweak"); ret2 = mantis_set_tweak(&ks, stored, 8); vh_call_end();
+            VH_COUNT("crypt_tweaked_calls_with_related_stored_tweak", 1);
+        }
         if (entry == 3) { vh_call_begin("mantis_set_tweak"); ret2 = mantis_set_tweak(&ks, tweak, 8); vh_call_end();   /* non-zero first, then NULL */
                           vh_call_begin("mantis_set_tweak(NULL)"); ret2 &= mantis_set_tweak(&ks, NULL, 8); vh_call_end(); }
-        if (reloc) { use = vh_ro_copy(0, &ks, sizeof(ks)); memset(&ks, 0x5A, sizeof(ks)); VH_COUNT("calls_on_relocated_read_only_schedule", 1); }
+        if (reloc) { use = vh_ro_copy_al(0, &ks, sizeof(ks), _Alignof(__typeof__(ks))); memset(&ks, 0x5A, sizeof(ks)); VH_COUNT("calls_on_relocated_read_only_schedule", 1); }
         if (entry == 1) { vh_call_begin("mantis_ecb_crypt_tweaked"); mantis_ecb_crypt_tweaked(out, in, tweak, use); vh_call_end(); }
         else { vh_call_begin("mantis_ecb_crypt"); mantis_ecb_crypt(out, in, use); vh_call_end(); }
         if (reloc) vh_ro_release(0);
@@ -224,7 +234,7 @@ static void c03_single(uint64_t idx, vh_rng *r)
         if (tweaked) { ret = skinny128_set_tweaked_key(&tk, key, klen); if (vh_below(r, 4)) ret &= skinny128_set_tweak(&tk, tweak, tlen); ks = &tk.ks; }
         else { ret = skinny128_set_key(&pk, key, klen); ks = &pk; }
         vh_call_end();
-        if (idx & 4) { ks = vh_ro_copy(0, ks, sizeof(*ks)); memset(&tk, 0xA5, sizeof(tk)); memset(&pk, 0xA5, sizeof(pk)); VH_COUNT("calls_on_relocated_read_only_schedule", 1); }
+        if (idx & 4) { ks = vh_ro_copy_al(0, ks, sizeof(*ks), _Alignof(__typeof__(*ks))); memset(&tk, 0xA5, sizeof(tk)); memset(&pk, 0xA5, sizeof(pk)); VH_COUNT("calls_on_relocated_read_only_schedule", 1); }
         vh_call_begin("skinny128 ecb");
         skinny128_ecb_encrypt(y, x, ks); skinny128_ecb_decrypt(z, y, ks);
         vh_call_end();
@@ -239,7 +249,7 @@ static void c03_single(uint64_t idx, vh_rng *r)
         if (tweaked) { ret = skinny64_set_tweaked_key(&tk, key, klen); if (vh_below(r, 4)) ret &= skinny64_set_tweak(&tk, tweak, tlen); ks = &tk.ks; }
         else { ret = skinny64_set_key(&pk, key, klen); ks = &pk; }
         vh_call_end();
-        if (idx & 4) { ks = vh_ro_copy(0, ks, sizeof(*ks)); memset(&tk, 0xA5, sizeof(tk)); memset(&pk, 0xA5, sizeof(pk)); VH_COUNT("calls_on_relocated_read_only_schedule", 1); }
+        if (idx & 4) { ks = vh_ro_copy_al(0, ks, sizeof(*ks), _Alignof(__typeof__(*ks))); memset(&tk, 0xA5, sizeof(tk)); memset(&pk, 0xA5, sizeof(pk)); VH_COUNT("calls_on_relocated_read_only_schedule", 1); }
         vh_call_begin("skinny64 ecb");
         skinny64_ecb_encrypt(y, x, ks); skinny64_ecb_decrypt(z, y, ks);
         vh_call_end();
@@ -397,7 +407,7 @@ static void c03_mantis(uint64_t idx, vh_rng *r)
             vh_rand_bytes(r, in, 8); vh_rand_bytes(r, t2, 8);
             if (mode) ref_mantis_encrypt(rounds, key, tweaked_entry ? t2 : tweak, in, exp_); else ref_mantis_decrypt(rounds, key, tweaked_entry ? t2 : tweak, in, exp_);
             {
-                const MantisKey_t *use = (i & 1) ? vh_ro_copy(0, &ks, sizeof(ks)) : &ks;
+                const MantisKey_t *use = (i & 1) ? vh_ro_copy_al(0, &ks, sizeof(ks), _Alignof(MantisKey_t)) : &ks;
                 vh_call_begin(tweaked_entry ? "mantis_ecb_crypt_tweaked" : "mantis_ecb_crypt");
                 if (tweaked_entry) mantis_ecb_crypt_tweaked(out, in, t2, use); else mantis_ecb_crypt(out, in, use);
                 vh_call_end();
@@ -478,6 +488,7 @@ static void c04_case(uint64_t idx)
             int null = !vh_below(&r, 8);
             tlen = vh_below(&r, 2) ? bb : 1 + vh_below(&r, bb);
             if (!null && !tweak_null && !vh_below(&r, 6)) { tlen = bb; VH_COUNT("tweak_set_to_its_current_value_again", 1); }    /* the current (zero-padded) tweak once more, full length */
+            else if (!null && !tweak_null && !vh_below(&r, 6)) { uint8_t tb[16]; tlen = bb; vh_related(&r, tb, tweak, bb); memcpy(tweak, tb, bb); VH_COUNT("tweak_related_to_the_current_one", 1); }   /* words repeated / swapped / one bit apart */
             else {
             memset(tweak, 0, 16);
             if (!null) { uint8_t tb[16]; vh_fill_interesting(&r, tb, tlen); if (vh_below(&r, 6) == 0 && tlen) memset(tb, 0, tlen); memcpy(tweak, tb, tlen); }
@@ -503,7 +514,7 @@ static void c04_case(uint64_t idx)
             snprintf(k_, sizeof(k_), "C04:skinny%u:%s", bb * 8, dec ? "decrypt" : "encrypt"); vh_set_crash_key(k_);
             {
                 const Skinny128Key_t *u128 = &t128.ks; const Skinny64Key_t *u64 = &t64.ks; int reloc = !chain && (int)vh_below(&r, 2);
-                if (reloc) { if (bb == 16) u128 = vh_ro_copy(0, &t128.ks, sizeof(t128.ks)); else u64 = vh_ro_copy(0, &t64.ks, sizeof(t64.ks)); VH_COUNT("calls_on_relocated_read_only_schedule", 1); }
+                if (reloc) { if (bb == 16) u128 = vh_ro_copy_al(0, &t128.ks, sizeof(t128.ks), _Alignof(Skinny128Key_t)); else u64 = vh_ro_copy_al(0, &t64.ks, sizeof(t64.ks), _Alignof(Skinny64Key_t)); VH_COUNT("calls_on_relocated_read_only_schedule", 1); }
                 vh_call_begin("ecb on tweaked schedule");
                 if (bb == 16) { if (dec) skinny128_ecb_decrypt(out, in, u128); else skinny128_ecb_encrypt(out, in, u128); }
                 else { if (dec) skinny64_ecb_decrypt(out, in, u64); else skinny64_ecb_encrypt(out, in, u64); }
